@@ -254,6 +254,25 @@ pub fn drain(cfg: &Config, limit: usize) -> Result<Vec<ShRec>, Fail> {
     Ok(out)
 }
 
+/// like `drain`, but over hand ranges built by the caller (e.g. parsed from text) that are claimed
+/// to have the contents of `cfg.ranges`
+pub fn drain_with(cfg: &Config, players: &Vec<HandRange>, limit: usize) -> Result<Vec<ShRec>, Fail> {
+    let tr = Translator::new(cfg);
+    let mut out = Vec::new();
+    let mut e = FlopExhaustiveEvaluator::new(&e_board(&cfg.flop), players);
+    if let Some((a, b, c, d)) = cfg.scope {
+        e.scope(a, b, c, d);
+    }
+    for s in e {
+        let rec = tr.record(&s)?;
+        if out.len() >= limit {
+            return Err(Fail::new("over-production", format!("evaluator yielded more than {} showdowns, the model allows at most that many", limit)));
+        }
+        out.push(rec);
+    }
+    Ok(out)
+}
+
 pub fn describe_key(cfg: &Config, k: DealKey) -> String {
     let (t, r, cs) = unpack_key(k, cfg.ranges.len());
     let deck = deck49(&cfg.flop);
